@@ -1,5 +1,6 @@
 import SJ.Properties.C13
 import SJ.Proofs.SourceLevelB
+import SJ.Proofs.SourceLevelC
 set_option linter.unusedVariables false
 /-
 C13 — source level. The theorems of Properties/C13.lean composed with the source ties of DESIGN §6.3: each statement
@@ -122,5 +123,75 @@ theorem C13_source_gate_null (pj : PJ) (i : Iter) (hl : i.lim ≤ pj.tape.size)
         { env := envOf "i" i ++ [("Strings.B", .bytes pj.strings)], tape := pj.tape } = .ret s [.bool true] ∧
       s.tape = pj.tape ∧ s.env.get "Strings.B" = some (.bytes pj.strings) ∧ iterAt s.env "i" = some i :=
   SJ.SourceLevelB.C13_source_gate_null pj i hl h0 h1 h2 fuel hf
+
+open SJ.Generated SJ.GoSem SJ.GoIter SJ.GoSet SJ.Layout SJ.SourceLevelC SJ.EditHistory SJ.WalkLayout in
+/-- **Any sequence of replacements, source level** (`C13_history` on the source).  `ops` is any list of `SetInt / SetUInt /
+    SetFloat / SetBool / SetNull / SetString` calls, each addressed to a tape position and valid in the document as it is
+    when the call is made (`ValidSeq`).  Running the regenerated syntax trees one after the other — each on the iterator
+    standing on the addressed word of the tape the previous run returned, with the string buffer the previous run returned —
+    every run returns `nil`, and the final tape holds the original document with exactly those replacements applied in order
+    (`absOps`: a fold of node substitutions), still tight; same `Message`, same tape length, string buffer extended by
+    exactly the bytes of the `SetString` calls.
+    Discharged from the ties: the view premise (`iterOn`'s view is the whole tape), `cur < 2^63` for `SetNull` on a
+    container (a 56-bit payload), and the fuel of `SetNull` (on a container `cur` is the end of the node, inside the tape; on
+    other tags the function does not loop — `setNull_sim_noloop`).  Remaining: the interpreter fuel `len(tape) + 2`.
+    `ValidSeq` speaks of the model's `applyOp` in its recursion ("valid in the tape the previous call produced"); the
+    version with validity on the document alone is `C13_source_history_abs`. -/
+theorem C13_source_history (ops : List EOp) (pj : PJ) (v : LVal) (hok : Ok pj v) (ht : Tight v) (hv : ValidSeq pj v ops)
+    (fuel : Nat) (hf : pj.tape.size + 2 ≤ fuel) :
+    ∃ pj', srcOps fuel pj ops = some pj' ∧ Ok pj' (absOps v ops) ∧ Tight (absOps v ops) ∧ pj'.msg = pj.msg ∧
+      pj'.tape.size = pj.tape.size ∧ pj'.strings = pj.strings ++ appendedAll ops :=
+  SJ.SourceLevelC.C13_source_history ops pj v hok ht hv fuel hf
+
+open SJ.Generated SJ.GoSem SJ.GoIter SJ.GoSet SJ.Layout SJ.SourceLevelC SJ.EditHistory SJ.WalkLayout in
+/-- **… with validity stated on the document alone** (`ValidSeqA`: the addressed node exists in the document reached so far
+    and has a constructor the function's gate admits; `SetString` keeps the string buffer below 2^55 bytes; `SetNull` on a
+    container needs a tape shorter than 2^56 words).  No function of the hand model occurs in this statement, premises
+    included, except the positioning `iterOn` inside `srcOps`. -/
+theorem C13_source_history_abs (ops : List EOp) (pj : PJ) (v : LVal) (hok : Ok pj v) (ht : Tight v)
+    (hv : ValidSeqA pj.strings.size pj.tape.size v ops) (fuel : Nat) (hf : pj.tape.size + 2 ≤ fuel) :
+    ∃ pj', srcOps fuel pj ops = some pj' ∧ Ok pj' (absOps v ops) ∧ Tight (absOps v ops) ∧ pj'.msg = pj.msg ∧
+      pj'.tape.size = pj.tape.size ∧ pj'.strings = pj.strings ++ appendedAll ops :=
+  SJ.SourceLevelC.C13_source_history_abs ops pj v hok ht hv fuel hf
+
+open SJ.Generated SJ.GoSem SJ.GoIter SJ.GoSet SJ.Layout SJ.SourceLevelC SJ.EditHistory SJ.WalkLayout in
+/-- **A disallowed call, run on the source, returns an error and changes nothing** — on ANY tape (no document needed): if
+    the gate of the function refuses the tag of the addressed word, the run returns a non-nil error and the tape, the string
+    buffer and the receiver are exactly what they were.  Fuel: one unit (`SetNull` on a refused tag does not loop). -/
+theorem C13_source_refused (pj : PJ) (op : EOp) (hg : gateOf op (tagAt pj op.pos) = false) (fuel : Nat) (hf : 1 ≤ fuel) :
+    ∃ s, srcRun fuel pj op = .ret s [.bool true] ∧ s.tape = pj.tape ∧
+      s.env.get "Strings.B" = some (.bytes pj.strings) ∧ iterAt s.env "i" = some (iterOn pj op.pos) :=
+  SJ.SourceLevelC.C13_source_refused pj op hg fuel hf
+
+open SJ.Generated SJ.GoSem SJ.GoIter SJ.GoSet SJ.Layout SJ.SourceLevelC SJ.EditHistory SJ.WalkLayout in
+/-- **… at any point of a source-side history** (`C13_history_refused` on the source): after the source-side run of a valid
+    history, a call whose gate refuses the tag it finds returns a non-nil error, and the tape and string buffer reached so
+    far are untouched — they still hold the document reached so far. -/
+theorem C13_source_history_refused (ops : List EOp) (pj : PJ) (v : LVal) (hok : Ok pj v) (ht : Tight v)
+    (hv : ValidSeq pj v ops) (fuel : Nat) (hf : pj.tape.size + 2 ≤ fuel) (op : EOp)
+    (hg : ∀ pjm, srcOps fuel pj ops = some pjm → gateOf op (tagAt pjm op.pos) = false) :
+    ∃ pjm, srcOps fuel pj ops = some pjm ∧ Ok pjm (absOps v ops) ∧ Tight (absOps v ops) ∧
+      (∃ s, srcRun fuel pjm op = .ret s [.bool true] ∧ s.tape = pjm.tape ∧
+        s.env.get "Strings.B" = some (.bytes pjm.strings)) ∧
+      srcOps fuel pj (ops ++ [op]) = none :=
+  SJ.SourceLevelC.C13_source_history_refused ops pj v hok ht hv fuel hf op hg
+
+open SJ.Generated SJ.GoSem SJ.GoIter SJ.GoSet SJ.Layout SJ.SourceLevelC SJ.EditHistory SJ.WalkLayout SJ.MarshalExact SJ.GoObject SJ.GoMarshal SJ.RenderParse in
+/-- **… and the source-side reader then prints exactly the edited document** (the source-level counterpart of
+    `C13_history_readback`, whose reader `owalkValue` is a walker of the model): after the source-side run of any valid
+    history, running the regenerated `Iter.MarshalJSONBuffer` on the tape and string buffer that run returned, from the
+    iterator standing on the document's first word (which has not moved), returns `dst ++` the canonical text
+    `renderJ (erase (absOps v ops))` of the edited document, and `nil`.
+    Remaining: `FloatsOk` of the edited document (a `SetFloat(NaN)` has no JSON text: `MarshalJSONBuffer` then returns an
+    error, `C10_source_marshal_error`); `msg.size < 2^63` and the final string-buffer length `< 2^63` (`BufOK`, Go `int`s);
+    interpreter fuel. -/
+theorem C13_source_history_readback (ops : List EOp) (pj : PJ) (v : LVal) (hok : Ok pj v) (ht : Tight v)
+    (hv : ValidSeq pj v ops) (hfl : FloatsOk (absOps v ops)) (hmsg : pj.msg.size < 2^63)
+    (hstr : pj.strings.size + (appendedAll ops).size < 2^63) (fuel : Nat) (hf : pj.tape.size + 2 ≤ fuel) (dst : Bytes)
+    (F : Nat) (hF : 3 * pj.tape.size + 25 ≤ F) :
+    ∃ pj', srcOps fuel pj ops = some pj' ∧
+      ∃ st, runFun goFuns goIter_MarshalJSONBuffer F ⟨initEnv pj' (iterOn pj' v.pos) dst, pj'.tape⟩ =
+          .ret st [.bytes (dst ++ renderJ (erase (absOps v ops))), .bool false] ∧ st.tape = pj'.tape :=
+  SJ.SourceLevelC.C13_source_history_readback ops pj v hok ht hv hfl hmsg hstr fuel hf dst F hF
 
 end SJ.Properties.C13
